@@ -37,6 +37,7 @@ def run(chk):
                 return obj.distance_to_surface(make("theta", (TH,)))
             for p in chk.explore(fkey, run_d, assumptions=TH.facts()):
                 if p.kind != "return":
+                    chk.path_raised(fkey, p)
                     continue
                 t = path_tag(p)
                 res = p.value
